@@ -178,7 +178,12 @@ fn connect_variants(g: &mut Gen) {
         } else if roll < 6 {
             let reasons: Vec<u8> = rc::reason_codes(Kind::Connack).iter().copied().filter(|r| *r >= 0x80).collect();
             let reason = *g.rng.pick(&reasons);
-            let props = diag_props(g.rng, true);
+            let mut props = diag_props(g.rng, true);
+            if g.rng.chance(1, 3) {
+                // legal in a refusal, and must not trip the assertion documented for a success
+                let at = g.rng.usize_below(props.0.len() + 1);
+                props.0.insert(at, (pid::SUBSCRIPTION_ID_AVAILABLE, PropVal::Byte(0)));
+            }
             g.broker(BrokerPkt::Connack { session_present: false, reason, props });
             responses = 0;
         } else if roll < 8 {
@@ -218,6 +223,15 @@ pub fn teardown(rng: &mut Rng) -> Case {
 }
 
 pub fn teardown_epilogue(g: &mut Gen) {
+    if g.rng.chance(1, 4) {
+        // a disconnect() that is submitted (or not even polled) but not yet served at the drop
+        let id = g.next_op_id();
+        let handle = g.rng.usize_below(g.cfg.handles.max(1));
+        g.push(Step::Op { id, handle, spec: OpSpec::Disconnect(DisconnectSpec::default()) });
+        if g.rng.coin() {
+            g.push(Step::Poll(TaskRef::Op(id)));
+        }
+    }
     if g.rng.chance(1, 6) && g.world.phase() == crate::world::Phase::Idle {
         g.push(Step::End);
     } else {
@@ -720,6 +734,43 @@ pub fn maxpacket(rng: &mut Rng) -> Case {
     if let (Some(r), true) = (r, m.map(|m| m >= 20).unwrap_or(true)) {
         g.quota_probe(r as usize);
     }
+    let mut m = m;
+    if g.rng.chance(1, 4) {
+        // the same Context serves a second connection whose CONNACK announces a different limit
+        let k = if g.rng.coin() { FaultKind::ReadEof } else { FaultKind::ReadErr };
+        g.push(Step::Fault(k));
+        g.settle();
+        let connect = g.connect_spec();
+        g.push(Step::Reconnect { elapsed: 5, connect, auths: vec![] });
+        g.settle();
+        let m2: Option<u32> = match g.rng.below(6) {
+            0 => None,
+            1 => Some(u32::MAX),
+            2 => m.map(|x| x.saturating_add(g.rng.range(1, 40) as u32)),
+            3 => m.map(|x| x.saturating_sub(g.rng.range(1, 40) as u32).max(1)),
+            _ => Some(g.rng.range(12, 90) as u32),
+        };
+        g.cfg.max_packet = m2;
+        m = m2;
+        let props = g.connack_props();
+        g.broker(BrokerPkt::Connack { session_present: false, reason: 0, props });
+        g.push(Step::Deliver { n: usize::MAX });
+        g.settle();
+        for _ in 0..g.rng.urange(1, 5) {
+            let id = g.next_op_id();
+            let kind = g.rng.weighted(&[2, 3, 2, 2, 2, 1]);
+            let mut spec = g.new_op_spec(kind, id);
+            if let Some(m) = m {
+                if m >= 4 && m < 100_000 {
+                    let target = (m as i64 + *g.rng.pick(&[-1i64, 0, 0, 1, 1, -7, 9])) as usize;
+                    pad_to(&mut spec, target, g.rng);
+                }
+            }
+            g.push(Step::Op { id, handle: 0, spec });
+            g.settle();
+        }
+        g.drain();
+    }
     if g.rng.chance(1, 4) {
         // a DISCONNECT as the very last request
         let id = g.next_op_id();
@@ -883,6 +934,27 @@ pub fn resume(rng: &mut Rng) -> Case {
     g.cfg.steps = g.rng.urange(0, 25);
     for _ in 0..g.cfg.steps {
         g.action();
+    }
+    if g.rng.chance(1, 3) {
+        // the resumed connection is lost as well (possibly before anything was acknowledged)
+        g.push(Step::WriterReady);
+        g.push(Step::Deliver { n: usize::MAX });
+        g.settle();
+        let k = if g.rng.coin() { FaultKind::ReadEof } else { FaultKind::ReadErr };
+        g.push(Step::Fault(k));
+        g.settle();
+        let elapsed = elapsed_for(g.rng, effective);
+        let connect = g.connect_spec();
+        g.push(Step::Reconnect { elapsed, connect, auths: vec![] });
+        g.settle();
+        let props = g.connack_props();
+        g.broker(BrokerPkt::Connack { session_present: true, reason: 0, props });
+        g.push(Step::Deliver { n: usize::MAX });
+        g.settle();
+        g.cfg.steps = g.rng.urange(0, 15);
+        for _ in 0..g.cfg.steps {
+            g.action();
+        }
     }
     g.drain();
     finish_case(g, "resume")
